@@ -98,11 +98,13 @@ CLAIMED = {
             technique="Coq proof (generator state machine invariant) + extracted-model correspondence + twin-pipeline oracle", design="§5 C04"),
  "C06": dict(text="Coq theorems (C06/Props.v): required_sound - over the definitions regenerated on every run from SequentialCB._required and _results.should_pred, for every mode of the finite domain "
                   "learn x eval x has_score x record flags (vm_compute lifted by forallb_forall) each field the evaluation loop dereferences is demanded by _required (a source edit that lets the loop predict without 'actions' breaks the proof); "
-                  "on_policy_step / off_policy_step / one_row_per_interaction - the trace and rows of the loop over an abstract learner. A recording learner and generated environments check the real evaluator for every learn x eval x record "
+                  "on_policy_step / off_policy_step / one_row_per_interaction - the trace and rows of the loop over an abstract learner; and, over ModelLoop.step - one iteration of _results for EVERY mode learn in {None,on,off,ips} x eval in {None,on,ips} with an explicit learner state - "
+                  "learn_on_teaches_the_learners_own_choice, learn_ips_teaches_the_ips_reward, learn_off_teaches_the_logged_triple, learn_none_never_teaches, recorded_reward (eval on / ips), recorded_reward_by_score, one_row_per_interaction_in_every_mode and ips_transform "
+                  "(logged reward / logged probability for the logged action, 0 elsewhere, a missing or zero probability counting as 1); the extracted loop is run with a scripted learner against the real evaluator's call trace and rows on every mode. A recording learner and generated environments check the real evaluator for every learn x eval x record "
                   "subset x field subset, batched (per-row fallback) or not, against the environment data, incl. the IPS transform and rejection of environments lacking needed fields.",
-            note="Trusted: Coq kernel, translator (boolean fragment over mode codes, fails closed), extraction+driver, harness. The loop model is an abstraction of _results for the on/on and off/on modes; SafeLearner (C15), OpeRewards, BatchSafe/Unbatch and Finalize are used as they are; "
+            note="Trusted: Coq kernel, translator (boolean fragment over mode codes, fails closed), extraction+driver, harness. The loop model covers un-batched interactions with all fields present (batched runs and rejection of incomplete environments are decided by the oracle); SafeLearner (C15), OpeRewards, BatchSafe/Unbatch and Finalize are used as they are; "
                  "dr/dm need vowpalwabbit and are outside the property; a missing logged probability counts as 1 (by the code's own design).",
-            technique="Coq proof over translator-generated mode flags (finite sweep) + recording-learner oracle", design="§5 C06"),
+            technique="Coq proof over translator-generated mode flags (finite sweep) and an executable model of the evaluation loop + extracted-model trace correspondence + recording-learner oracle", design="§5 C06"),
  "C19": dict(text="Coq theorems (C19/Props.v) over an interleaving model of ConcurrentCacher: for ANY number of callers, ANY lists of get_set/rmv operations on equal or colliding keys, ANY schedule (lists of caller ids, at the granularity of the atomic lock "
                   "blocks, getter steps and inner-cache operations) and getters that fail, the counter invariant (arr=-1 iff one writer and no reader; arr=r>=0 iff r readers and no writer; an entry is Writing iff exactly one getter runs) is inductive and so holds in every "
                   "reachable state; corollaries: no partial read, writers exclusive, all locks released when everybody has finished, no deadlock (some caller can always make a non-spinning step), single flight, a failed getter leaves no entry. "
